@@ -723,5 +723,10 @@ def run(chk):
                                            'C11.S': 'relational operators are sign tests of value_compare'}[r])
     chk.guard('C11.P', c11.check_value_compare, chk)
     chk.guard('C11.S', c11.check_sign_tests, chk)
+    # "+ ... stringifying the other": the stringifier on numbers (shared with C13)
+    from . import c13
+    chk.rule('C13.D', 'shared with C13: value_string on sample numbers never raises and prints a text denoting the number')
+    chk.rule('C13.C', 'shared with C13: number clean-up')
+    c13.report_value_string_sim(chk)
     chk.guard('C03.B', check_aliases, chk)
     chk.guard('C03.B', evalsim.report, chk, {'lookup': 'C03.B'}, what)
